@@ -480,7 +480,7 @@ class Gen:
         cls = {"": 1, "u8": 3, "u": 5, "U": 7, "L": 6 if self.tg["wchar"] == "int" else 7}[kind]
         return E(txt, "s%d.%d:%s" % (w, cls, "/".join(map(str, b))), ["string"])
 
-    def gen_one(self, t, bfw, depth, may_partial, nocl=False, nobrace=False):
+    def gen_one(self, t, bfw, depth, may_partial, nocl=False, nobrace=False, noempty=False):
         """(items, complete): undesignated items initialising one sub-object of type t positionally;
         complete = the sub-object was consumed entirely (the cursor stands behind it).
         nobrace: the first item must not begin with `{` (it is the first initialiser of a
@@ -502,7 +502,7 @@ class Gen:
                 return [([], s)], True
         r = rng.random()
         if (r < 0.62 or self.budget <= 0) and not nobrace:
-            return [([], self.gen_braced(t, depth, nocl))], True
+            return [([], self.gen_braced(t, depth, nocl, noempty))], True
         # brace elision: the flattened sub-objects
         self.hist("shape", "brace-elided")
         ch = self.children(t, True)
@@ -511,7 +511,8 @@ class Gen:
             k = rng.randint(1, len(ch))
         out = []
         for idx, (_, ct, w) in enumerate(ch[:k]):
-            one, comp = self.gen_one(ct, w, depth + 1, may_partial and idx == k - 1, nocl, nobrace=(idx == 0))
+            one, comp = self.gen_one(ct, w, depth + 1, may_partial and idx == k - 1, nocl, nobrace=(idx == 0),
+                                     noempty=isinstance(t, Arr) and idx == 0)
             out += one
             if not comp:
                 self.hist("shape", "elided-partial")
@@ -520,14 +521,14 @@ class Gen:
             self.hist("shape", "elided-partial")
         return out, k == len(ch)
 
-    def gen_braced(self, t, depth, nocl=False):
+    def gen_braced(self, t, depth, nocl=False, noempty=False):
         rng = self.rng
         if isinstance(t, Sc):
             return L([([], self.expr_for(t))])
         items = []
         chpos = self.children(t, True)
         chall = self.children(t, False)
-        if rng.random() < 0.04 and not (isinstance(t, Arr) and t.n is None) and not (depth == 1 and self.top_unsized):
+        if rng.random() < 0.04 and not (isinstance(t, Arr) and t.n is None) and not noempty:
             self.hist("shape", "empty-braces")
             return L([])
         pos = 0
@@ -546,7 +547,9 @@ class Gen:
                     want_desig = True
                 else:
                     _, ct, w = chpos[pos]
-                    one, comp = self.gen_one(ct, w, depth + 1, last, nocl)
+                    # `{}` (C23) as the first element of an array is not consumed by cproc: avoided
+                    one, comp = self.gen_one(ct, w, depth + 1, last, nocl,
+                                             noempty=isinstance(t, Arr) and pos == 0 and not items)
                     items += one
                     pos += 1
                     used_pos = True
@@ -612,7 +615,7 @@ class Gen:
                 pos = None
         if not items:
             _, ct, w = chpos[0]
-            one, _ = self.gen_one(ct, w, depth + 1, True, nocl)
+            one, _ = self.gen_one(ct, w, depth + 1, True, nocl, noempty=isinstance(t, Arr))
             items += one
         self.hist("mode", ("designated" if used_desig else "") + ("+" if used_desig and used_pos else "") +
                   ("positional" if used_pos else ""))
@@ -1191,6 +1194,8 @@ class Runner:
                 # byte k of the address sym+addend
                 wsym, wadd, k = w[1], w[2], w[3]
                 cands = []
+                if wsym.startswith("@c"):
+                    continue          # a compound literal in a function body is an automatic object
                 if wsym.startswith("@"):
                     cands = [a for nm, a in gaddr.items() if nm.startswith(".L")]
                 elif wsym in gaddr:
